@@ -154,8 +154,13 @@ def _check(prop, fam, tier, seed, replay, scr, t0):
             json.dump(dict(property=prop, seed=int(seed), behaviour=by_id[tr], clause=clause, step=i,
                            observed=dict(op=op, res=ln.get("res"), err=ln.get("err"))),
                       open(rp, "w"), indent=1)
-            r2, _ = validate(scr, fam, [by_id[tr]], seed, tier, props, "confirm")
-            confirmed_traces[tr] = (rp, any(x[0] == prop for x in r2["viol"]))
+            ok2 = False
+            for attempt in range(fam.get("confirm_attempts", 1)):
+                r2, _ = validate(scr, fam, [by_id[tr]], seed, tier, props, "confirm")
+                if any(x[0] == prop for x in r2["viol"]):
+                    ok2 = True
+                    break
+            confirmed_traces[tr] = (rp, ok2)
         rp, ok = confirmed_traces[tr]
         if not ok:
             log("[%s] violation in %s step %s did not reproduce; inconclusive" % (prop, tr, i))
